@@ -43,3 +43,5 @@ PY
 done
 # restore the facts of /repo for whoever runs next
 .build/gwfacts /repo > lean/GwModel/Gen/Facts.lean
+# binaries and module files built for the scratch worktree are of no further use
+find .build -maxdepth 1 \( -name 'gwharness-[0-9]*' -o -name 'gwharness-race-[0-9]*' -o -name 'alt-*' \) -delete 2>/dev/null
